@@ -14,7 +14,7 @@ def run(ck):
         hists += [(model, h) for h in conslib.sync_design(ck, "sync%d" % k, model, 60 if quick else 1500, prefix, ck.seed + k)]
     conslib.sync_design(ck, "syncmut", "nest3", 200 if quick else 600, 25, ck.seed, overrides=["AddCandPrefixes <- AddCandOnlyFull"], expect_refuted=True, export=False)
     # (T) real participants with their own timers, back-off and rebroadcast under partial synchrony
-    plan = [("gst", 40)] if quick else [("gst", 1200)]
+    plan = [("gst", 40)] if quick else [("gst", 400)]
     seeds = [ck.seed] if quick else [ck.seed, ck.seed + 1000]
     traces, st = conslib.run_layers(ck, plan, ["C06_"], seeds=seeds, conformance=not quick)
     g = conslib.gst_stats(traces)
